@@ -41,6 +41,12 @@ impl Elem for lightmotif::abc::Nucleotide {
     fn from_i(i: i64) -> Self { use lightmotif::abc::Alphabet; lightmotif::abc::Dna::symbols()[((4 + i) % 5) as usize] }
     fn to_i(self) -> i64 { use lightmotif::abc::Symbol; ((self.as_index() as i64) + 5 - 4) % 5 }
 }
+/// an element wider than the 32-byte alignment unit
+impl Elem for [u32; 16] {
+    const NAME: &'static str = "u32x16";
+    fn from_i(i: i64) -> Self { [i as u32; 16] }
+    fn to_i(self) -> i64 { self[0] as i64 }
+}
 impl Elem for lightmotif::abc::AminoAcid {
     const NAME: &'static str = "aminoacid";
     const KMOD: i64 = 21;
@@ -214,6 +220,16 @@ fn apply<T: Elem, C: ArrayLength + PartialEq>(p: &mut Pair<T, C>, o: &Value) -> 
             json!(m!()[lightmotif::dense::MatrixCoordinates::new(i, j)].to_i())
         }
         "eq" => json!(p.a == p.b),
+        "get_oob" | "set_oob" => {
+            // a coordinate outside the table: the access must be refused (panic); whatever happens is reported, and the
+            // full contents of both matrices are compared afterwards as for every operation
+            let i = o["i"].as_u64().unwrap() as usize - 1;
+            let j = o["j"].as_u64().unwrap() as usize - 1;
+            let c = lightmotif::dense::MatrixCoordinates::new(i, j);
+            let v = T::from_i(o["v"].as_i64().unwrap_or(1));
+            let r = if op == "get_oob" { guarded(|| { let _ = m!()[c]; }) } else { guarded(|| { m!()[c] = v; }) };
+            json!(if r.is_err() { "refused" } else { "accepted" })
+        }
         _ => panic!("unknown op {}", op),
     }
 }
@@ -260,7 +276,11 @@ fn random_op<C: ArrayLength + PartialEq>(rng: &mut impl Rng, na: usize, nb: usiz
                 if n == 0 { json!({"op":"iter_len","tgt":tgt}) }
                 else { json!({"op":"get","tgt":tgt,"i":rng.gen_range(1..=n),"j":rng.gen_range(1..=c)}) }
             }
-            16 => json!({"op":"eq","tgt":"a"}),
+            16 => if rng.gen_bool(0.5) { json!({"op":"eq","tgt":"a"}) } else {
+                // out-of-range coordinates: a column past the last one (inside the padded stride or in the next row), a row past the last one
+                let (i, j) = match rng.gen_range(0..3) { 0 => (rng.gen_range(1..=n.max(1)), c + 1 + rng.gen_range(0..3)), 1 => (n + 1 + rng.gen_range(0..2), rng.gen_range(1..=c)), _ => (n.max(1), c + 1) };
+                json!({"op": if rng.gen_bool(0.5) {"get_oob"} else {"set_oob"},"tgt":tgt,"i":i,"j":j,"v":rng.gen_range(1..kmod)})
+            },
             17 | 18 => json!({"op":"clone_from","tgt":tgt}),
             _ => {
                 let len = rng.gen_range(0..n + 4);
@@ -328,6 +348,7 @@ pub fn record(rec: &mut Recorder, seed: u64, thorough: bool) {
     all_c!(i64);
     all_c!(lightmotif::abc::Nucleotide);
     all_c!(lightmotif::abc::AminoAcid);
+    all_c!([u32; 16]);
 }
 
 // ------------------------------------------------------------------ replay (spec -> impl)
